@@ -92,7 +92,11 @@ func VerifH_C15_Faults() {
 			for i, f := range universe {
 				now := x.cs.fids[f]
 				if kind == "Tclunk" || kind == "Tremove" {
-					verifAssert(now == before[i] || now == nil, kind+": after a backend error only the clunked fid is unbound")
+					if f == x.lastFid {
+						verifAssert(now == nil, kind+": the fid is unbound even though the backend failed")
+					} else {
+						verifAssert(now == before[i], kind+": after a backend error only the clunked fid is unbound")
+					}
 				} else {
 					verifAssert(now == before[i], kind+": after a backend error the fid table is as if the request had not run")
 				}
